@@ -234,6 +234,8 @@ class Renderer:
         if kk == 'match':
             out = []
             for a in v.get('arms', []):
+                if isinstance(a.get('v'), dict) and a['v'].get('k') == 'never':
+                    continue
                 # boolean match (lazy_format! idiom): `match (cond) { false => .., true => .. }`
                 vs = a.get('variants', [])
                 t = self.truth(v['scrut'])
@@ -252,6 +254,11 @@ class Renderer:
             if v.get('local_closure') and v.get('result') is not None:
                 return self.render(v['result'], depth + 1)
             if f in ('join', 'join_with'):
+                src = v.get('recv')
+                while isinstance(src, dict) and (src.get('k') == 'var' or (src.get('k') == 'call' and src.get('f') in ('take', 'iter', 'into_iter', 'cloned', 'map') and src.get('recv') is not None)):
+                    src = src['v'] if src.get('k') == 'var' else src['recv']
+                if isinstance(src, dict) and src.get('k') == 'call' and src.get('f', '').endswith('repeat') and src.get('args'):
+                    return [x + '…' for x in self.render(src['args'][0], depth + 1)]
                 sep = ''
                 if v.get('args'):
                     sp = self.render(v['args'][0], depth + 1)
